@@ -69,6 +69,9 @@ func genGeneric(prop string, tweak func(g *genCtx), mix Mix) func(seed, run int6
 		if tweak != nil {
 			tweak(g)
 		}
+		if g.ft.Catalog {
+			g.h.Cfg.ValMask = 0 // declared functions have fixed Go types
+		}
 		// a few scopes and providers first so that later ops have something to use
 		warm := g.r.Range(2, 6)
 		for i := 0; i < warm && len(g.h.Ops) < g.ft.MaxOps; i++ {
